@@ -228,6 +228,22 @@ static int compiler(const char *tool, int argc, char **argv) {
         printf("%s (GCC) 12.2.0\nCopyright (C) 2022 Free Software Foundation, Inc.\n", tool);
         return 0;
     }
+    {   /* gcc's include search list probe (cc -E -Wp,-v /dev/null): C_INCLUDE_PATH, CPATH, then /usr/include */
+        int wpv = 0;
+        for (int i = 1; i < argc; i++) if (!strcmp(argv[i], "-Wp,-v")) wpv = 1;
+        if (wpv && Eflag) {
+            printf("#include \"...\" search starts here:\n#include <...> search starts here:\n");
+            const char *vars[] = {"CPATH", "C_INCLUDE_PATH"};
+            for (int v = 0; v < 2; v++) {
+                const char *e = getenv(vars[v]);
+                if (!e) continue;
+                char buf[8192]; snprintf(buf, sizeof buf, "%s", e);
+                for (char *t = strtok(buf, ":"); t; t = strtok(0, ":")) printf(" %s\n", t);
+            }
+            printf(" /usr/include\nEnd of search list.\n");
+            return 0;
+        }
+    }
     if ((Eflag && !out) || (!out && !cflag)) return 1;            /* probes: unsupported */
     hbytes(cflag ? "c" : shared ? "s" : "l", 1);
     for (int i = 1; i < argc; i++) hbytes(argv[i], strlen(argv[i]) + 1);
